@@ -12,12 +12,17 @@ pub struct GenerateResult {
 
 fn generate_hex_from_segment(segment: &[u8]) -> Result<String, Error> {
     let mut records = vec![];
-    if segment.len() > 0 {
-        records.push(Record::ExtendedSegmentAddress(0x0));
+    // one extended address record per 64 KiB block: segment records reach 1 MiB, linear beyond
+    for (block, block_data) in segment.chunks(0x10000).enumerate() {
+        if block < 16 {
+            records.push(Record::ExtendedSegmentAddress((block << 12) as u16));
+        } else {
+            records.push(Record::ExtendedLinearAddress(block as u16));
+        }
 
-        for (i, chunk) in segment.chunks(16).enumerate() {
+        for (i, chunk) in block_data.chunks(16).enumerate() {
             records.push(Record::Data {
-                offset: i as u16 * 16,
+                offset: (i * 16) as u16,
                 value: chunk.to_vec(),
             });
         }
